@@ -437,7 +437,12 @@ def sig_ok(cst, sst, cred, version):
     """Sufficient condition: the client advertises and the server enables
     a signature scheme the credential can make."""
     if version < (3, 3):
-        return cred in ("rsa", "ecdsa", "dsa")
+        # the scheme is fixed by the protocol; an endpoint that lists no
+        # hash at all for the key type has switched that key type off
+        attr = {"rsa": "rsaSigHashes", "ecdsa": "ecdsaSigHashes",
+                "dsa": "dsaSigHashes"}.get(cred)
+        return attr is not None and bool(getattr(cst, attr)) and \
+            bool(getattr(sst, attr))
     both = lambda a: [h for h in getattr(cst, a) if h in getattr(sst, a)]  # noqa
     if cred == "rsa":
         hs = [h for h in both("rsaSigHashes") if h != "md5"]
@@ -464,25 +469,79 @@ def sig_ok(cst, sst, cred, version):
     return False
 
 
+def negotiated_version(cst, sst):
+    """Model of version negotiation (RFC 8446 4.1.3, 4.2.1 and appendix D):
+    the version both ends settle on, or (None, why no connection is
+    demanded)."""
+    def in_range(st, v):
+        return st.minVersion <= v <= st.maxVersion
+    c_list = list(cst.versions)
+    if not enabled_suites(cst, (3, 4)):
+        # TLS 1.3 needs one of its own suites
+        c_list = [v for v in c_list if v < (3, 4)]
+    if any(v > (3, 3) for v in c_list):
+        # (the extension lists settings.versions as they are, also entries
+        # outside minVersion..maxVersion, which the client then refuses)
+        c_off = list(c_list)
+        c_ext = True
+    else:
+        top = min(cst.maxVersion, (3, 3))
+        c_off = [v for v in S.VERSIONS if cst.minVersion <= v <= top]
+        c_ext = False
+    if not c_off:
+        return None, "client enables no version"
+    s_en = [v for v in sst.versions if in_range(sst, v)]
+    if c_ext:
+        V = next((v for v in s_en if v in c_off), None)
+        if V is None:
+            return None, "no common version"
+    else:
+        V = min(max(c_off), min(sst.maxVersion, (3, 3)))
+        if V < sst.minVersion or V not in c_off:
+            return None, "no common version"
+    if not in_range(cst, V):
+        return None, "server may pick a version the client lists but " \
+            "does not accept"
+    H = max(s_en or [sst.maxVersion])
+    O = max(c_off)
+    sentinel12 = V == (3, 3) and H > (3, 3)
+    sentinel11 = V < (3, 3) and H >= (3, 3)
+    if O > (3, 3) and V <= (3, 3) and (sentinel12 or sentinel11):
+        return None, "server picks a lower version than both support: " \
+            "downgrade protection applies"
+    if O == (3, 3) and V < (3, 3) and sentinel11:
+        return None, "server picks a lower version than both support: " \
+            "downgrade protection applies"
+    return V, "ok"
+
+
 def must_connect(cst, sst, cred):
     """Independent *sufficient* condition for a handshake to complete;
     returns (bool, reason).  Deliberately conservative: whenever the answer
     could depend on which common suite the server prefers, every common suite
     has to be workable."""
-    cv = [v for v in S.VERSIONS if cst.minVersion <= v <= cst.maxVersion]
-    sv = [v for v in S.VERSIONS if sst.minVersion <= v <= sst.maxVersion]
-    if (3, 4) in cv and (3, 4) not in cst.versions:
-        return False, "client versions list excludes 1.3"
-    if (3, 4) in sv and (3, 4) not in sst.versions:
-        return False, "server versions list excludes 1.3"
-    for st in (cst, sst):
-        if set(v for v in S.VERSIONS
-               if st.minVersion <= v <= st.maxVersion) != set(st.versions):
-            return False, "versions list differs from min/max range"
-    common_v = [v for v in cv if v in sv]
-    if not common_v:
-        return False, "no common version"
-    V = max(common_v)
+    V, why = negotiated_version(cst, sst)
+    if V is None:
+        return False, why
+    if V == (3, 4) and cred == "dsa":
+        # TLS 1.3 has no DSA: a server that only holds a DSA certificate
+        # cannot do TLS 1.3 whatever its settings say, so what it shares
+        # with the client is its TLS <= 1.2 configuration
+        c12, s12 = copy.copy(cst), copy.copy(sst)
+        for st in (c12, s12):
+            st.maxVersion = min(st.maxVersion, (3, 3))
+            st.versions = [v for v in st.versions if v < (3, 4)]
+        if c12.minVersion > c12.maxVersion or s12.minVersion > s12.maxVersion:
+            return False, "dsa in 1.3 only"
+        V2, why = negotiated_version(c12, s12)
+        if V2 is None:
+            return False, why
+        ok, why = _demand_at(c12, s12, cred, V2)
+        return ok, "dsa-server-tls13:" + why
+    return _demand_at(cst, sst, cred, V)
+
+
+def _demand_at(cst, sst, cred, V):
     cs = enabled_suites(cst, V)
     ss = enabled_suites(sst, V)
     common = [s for s in cs if s in ss]
@@ -553,7 +612,7 @@ def must_connect(cst, sst, cred):
 
 def conn_menus():
     M = menus()
-    keep = ("minVersion", "maxVersion", "cipherNames", "macNames",
+    keep = ("minVersion", "maxVersion", "versions", "cipherNames", "macNames",
             "keyExchangeNames", "rsaSigHashes", "rsaSchemes",
             "ecdsaSigHashes", "dsaSigHashes", "more_sig_schemes",
             "eccCurves", "dhGroups", "keyShares", "useEncryptThenMAC",
@@ -674,9 +733,13 @@ def run_connection(res, tier, seed):
                     feats.append("hrr")
                 if "record_size_limit=64" in lb:
                     feats.append("server_record_size_limit=64")
+                if why.startswith("dsa-server-tls13"):
+                    feats.append("dsa_server_negotiates_tls13")
                 res.violation({"part": "connect", "cred": cred,
                                "client": la, "server": lb,
                                "features": feats,
+                               "dsa_tls13": why.startswith(
+                                   "dsa-server-tls13"),
                                "alerts": [str(x) for x in outc]},
                               {"outcome": outc, "why_demanded": why},
                               {"part": "connect", "cred": cred,
